@@ -7,7 +7,11 @@ import (
 	"verif/harness/internal/vh"
 )
 
-func init() { runners["C09"] = runC09 }
+func init() {
+	// the offset bookkeeping of the streamer's column walk (getValuesFromRow / getIdentifiesFromRow) over images split by
+	// Rows(): end to end, with the table map of a table id replaced by one of another shape between two rows events
+	runners["C09"] = func(c *Ctx) { runC09(c); runRetyped(c, "C09") }
+}
 
 func implRows(f replication.BinlogFormat, ev replication.BinlogEvent, tm *replication.TableMap) (vh.Val, *replication.Rows) {
 	var out *replication.Rows
